@@ -13,7 +13,8 @@ import (
 
 const vSA = `
 interface Node { id: ID! }
-type Human implements Node { id: ID! name(upper: Boolean): String! friends: [Human!]! best: Human age: Int }
+scalar JSON
+type Human implements Node { id: ID! name(upper: Boolean): String! friends: [Human!]! best: Human age: Int tag(meta: JSON): String }
 input TagIn { label: String weight: Int }
 input HumanIn { name: String tags: [TagIn!] }
 type Query { node(id: ID!): Node getHumans: [Human!]! me: Human findHumans(filter: [HumanIn!], grid: [[Int]]): [Human!]! }
@@ -116,6 +117,13 @@ func vReadmeOps() []vOp {
 		{q: `query($s: Boolean!) { getHumans { name friends @include(if: $s) { phone } } }`, vars: func() map[string]interface{} { return map[string]interface{}{"s": verifChoice("var_s", 2) == 1} }},
 		{q: `{ node(id: "h1") { id } }`, noNode: true, known: "node-without-fragment"},
 		{q: `{ __typename me { phone } }`, known: "root-typename"},
+		// lists and objects given for a custom scalar, with client variables inside
+		{q: `query($v: Int, $w: String) { me { tag(meta: [$v, {k: [$w]}]) phone } }`, vars: func() map[string]interface{} {
+			return map[string]interface{}{"v": verifInt("var_v", 0, 9), "w": "ww"}
+		}},
+		{q: `query($j: JSON) { me { tag(meta: $j) phone } }`, vars: func() map[string]interface{} {
+			return map[string]interface{}{"j": map[string]interface{}{"a": []interface{}{1, "x"}}}
+		}},
 		// the same object field selected twice: the selections merge
 		{q: `{ me { best { name } best { phone } } }`},
 		{q: `{ me { best { id } b: best { name } best { phone } b: best { phone } } }`},
